@@ -80,7 +80,7 @@ def gen_env(rng, first=False, sde=None):
     sde = SDE if sde is None else sde
     if first:
         return {"heap": None, "fill": None, "aslr": True, "clock": [1000000000, 1], "sde": sde, "junk": 0, "tz": None, "lang": None,
-                "lc_all": None, "lc_numeric": None, "stale": False, "stdin": "null", "home": None}
+                "lc_all": None, "lc_numeric": None, "stale": False, "stdin": "null", "home": None, "cwd": None, "pwd": None, "vars": []}
     return {
         "heap": rng.range(1, 1 << 30) if rng.chance(3, 4) else None,
         "fill": rng.choice([None, 0x5A, 0xA5, 0xFF, 0x01, 0x7F]),
@@ -95,6 +95,11 @@ def gen_env(rng, first=False, sde=None):
         "stale": rng.choice([False, False, False, "long", "short", "tail", "tail"]),
         "stdin": rng.choice(["null", "pipe"]),
         "home": rng.choice([None, "/nonexistent", "/tmp"]),
+        # the working directory reached through a symbolic link, with PWD naming the logical path, the physical one, garbage, or unset
+        "cwd": rng.choice([None, None, "symlink"]),
+        "pwd": rng.choice([None, "logical", "physical", "bogus"]),
+        # variables that tools of this kind are known to consult
+        "vars": rng.subset(["INTERROGATEDB_PATH", "PANDA_ROOT", "POSIXLY_CORRECT", "TMPDIR", "CWD", "DTOOL_INSTALL", "PRC_DIR", "CPLUS_INCLUDE_PATH", "C_INCLUDE_PATH", "CPATH"], 1, 4),
     }
 
 
@@ -152,10 +157,34 @@ def _env_dict(env):
 
 
 def run_once(steps, env, root, ref=None):
+    link = None
+    if env.get("cwd") == "symlink":
+        link = root + ".lnk"
+        if os.path.islink(link):
+            os.unlink(link)
+        os.symlink(root, link)
+    try:
+        return _run_once(steps, env, root, ref, link)
+    finally:
+        if link and os.path.islink(link):
+            os.unlink(link)
+
+
+def _run_once(steps, env, root, ref, link):
     """One execution of all steps of a job under one environment.  Returns
     (outputs {step/ch: bytes|None}, info)."""
     outputs, info = {}, {"outcomes": [], "clock_reads": 0, "heap": None, "ids": {}}
     e = _env_dict(env)
+    cwd = link or root
+    if env.get("pwd") == "logical":
+        e["PWD"] = cwd
+    elif env.get("pwd") == "physical":
+        e["PWD"] = root
+    elif env.get("pwd") == "bogus":
+        e["PWD"] = "/nonexistent/elsewhere"
+    for v in env.get("vars", []):
+        e[v] = os.path.join(root, "decoy")       # an existing but irrelevant directory
+    os.makedirs(os.path.join(root, "decoy"), exist_ok=True)
     preload = []
     if env["heap"] is not None:
         preload.append(build.shim("simheap"))
@@ -181,7 +210,7 @@ def run_once(steps, env, root, ref=None):
         if not env["aslr"]:
             argv = ["/usr/bin/setarch", "x86_64", "-R"] + argv
         import subprocess
-        r = runner.run_tool(argv, cwd=root, root=root, clock=tuple(env["clock"]), env=e, preload=preload,
+        r = runner.run_tool(argv, cwd=cwd, root=root, clock=tuple(env["clock"]), env=e, preload=preload,
                             stdin=(subprocess.PIPE if env["stdin"] == "pipe" else None))
         info["outcomes"].append(r.outcome())
         clock_vals = [ev["ret"] for ev in r.trace if ev["fault"] == "clock"]
